@@ -60,6 +60,10 @@ func init() {
 }
 
 func runC01(c *Ctx, r *Report) {
+	r.Rule("C01/explicit-matcher", "the exact echo matcher tests that the search window contains the input", 1)
+	r.Rule("C01/ansi-bounded", "no unbounded repetition of the escape-sequence pattern admits ESC or newline", 1)
+	checkExplicitMatcherArgs(c, r, "C01/explicit-matcher")
+	checkANSIPatternBounded(c, r, "C01/ansi-bounded")
 	r.Rule("C01/tx-seq", "send-input worker: exactly [write(input), echo read(ctx,input), write return, final prompt read per mode] on every success path; result = processOut(final read, StripPrompt); one SendInput per command", 6)
 	r.Rule("C01/enqueue-once", "read loop: one Enqueue per successful non-empty read, of that read's bytes with CR removed and ANSI stripped; read-until loops append every chunk and return the accumulation", 6)
 	r.Rule("C01/post-process", "processOut: per-line right-trim of spaces, prompt removal exactly when asked, trim of return char and newlines", 3)
